@@ -65,12 +65,12 @@ CHECKS = {
                   'clock readings decides that no task starts before every dependency is final and its update is readable. The automata are regenerated '
                   'from /repo on every run; a counterexample is a concrete schedule that is replayed on the real code with real threads. One symrun job '
                   'reduces graphs that hold a nested (possibly empty) dependency graph as a node to those plain-task graphs: what Scheduler.__init__ hands '
-                  'to the back end orders two tasks exactly when the given hard / soft edges do (5832 labelled graphs).',
+                  'to the back end keeps every ordering the given hard / soft edges imply (5832 labelled graphs).',
              design='DESIGN.md sections 2.2, 4 C01, 9.5'),
  'C02': dict(engine='threadsym', category='model_checking', note=TS_NOTE,
              technique='extracted thread automata + z3 bounded model checking over all interleavings (QF_BV); final status map compared with a recursive specification F(graph, outcomes); replay on real threads',
              text='For each listed graph/worker count one query per clause over all interleavings and outcome kinds: no task executed twice; at '
-                  'termination the status map equals F(graph, outcomes) (hence is schedule independent), skipped tasks never executed.',
+                  'termination the status map equals F(graph, outcomes) (hence is schedule independent), skipped tasks never executed. One symrun job on Scheduler.__init__ (graphs holding a nested, possibly empty, graph as a node): the hard graph handed to the back end orders two tasks exactly when the given hard edges do.',
              design='DESIGN.md sections 2.2, 4 C02'),
  'C03': dict(engine='threadsym', category='model_checking', note=TS_NOTE,
              technique='extracted thread automata + z3 bounded model checking over all interleavings (QF_BV) from a solver-chosen initial environment; deadlock / lost wake-up / leaked worker as a quiescence predicate; work queue handed back pristine (induction over calls on one scheduler object); unwinding query bounds every run where it is within reach (thorough); replay on real threads',
